@@ -36,6 +36,11 @@ func GenNum(repo string) (string, error) {
 	}
 	var b strings.Builder
 	fmt.Fprintf(&b, header, "pkg/validate/validate.go, internal/checks/numeric.go, types/integer.go, types/float.go", "C16", "NumDispatch")
+	{
+		h := strings.Replace(b.String(), "import Gozod.Model.Dispatch\n", "import Gozod.Model.Dispatch\nimport Gozod.Model.Arms\n", 1)
+		b.Reset()
+		b.WriteString(h)
+	}
 
 	// --- toNum: Go type → (payload kind, field, conversion) -------------------------------------
 	fd, err := f.fn("toNum")
@@ -108,6 +113,14 @@ func GenNum(repo string) (string, error) {
 		}
 		fmt.Fprintf(&b, "/-- `%s`: the arms of its switch, in order (condition, body). -/\ndef %s : List (String × String) := [\n  %s\n]\n\ndef %s_frame : String :=\n  %s\n\n",
 			name, name, strings.Join(arms, ",\n  "), name, leanStr(strings.Join(frame, "; ")))
+		if name != "compareNumeric" {
+			// the same switch as terms of Model/Arms.lean: conditions and statements, with Go's machine semantics
+			astTxt, err := armsAST(f, fd)
+			if err != nil {
+				return "", err
+			}
+			fmt.Fprintf(&b, "/-- `%s` as terms of `Gozod.Arms` (interpreted by `Arms.runArms`; `Proofs/C16Arms.lean`). -/\ndef %s_ast : List (Arms.BE × List Arms.St) := %s\n\n", name, name, astTxt)
+		}
 	}
 
 	// --- cmpIntFloat: constants, guards (structured), frame -------------------------------------
